@@ -291,3 +291,56 @@ for _f in range(4):
                 body_after_failed_call(_f, _tk, 4, 1, 'q', True, _e)
             except Exception:
                 pass
+
+
+# ------------------------------------------------------------------ the unchecked constructors
+
+class UC(pane.PaneBase, frozen=False):
+    """fields that are filled in by the class when absent: a plain default, a factory, an init=False field with a factory"""
+    name: str = 'n'
+    xs: t.List[int] = pane.field(default_factory=list)
+    log: t.List[str] = pane.field(init=False, default_factory=list)
+    tag: str = pane.field(init=False, default='t')
+
+
+@obligation(pre="0 <= which <= 2", witnesses=(0,), timeout=120)
+def body_unchecked_construct(which: int, hn: bool, hx: bool, hl: bool, i: int) -> int:
+    """from_dict_unchecked(d) / make_unchecked(**kw) / copy leave the mapping and the containers passed in untouched (whichever fields are absent and filled in by the class)"""
+    xs = [i]
+    d = {}
+    if hn or which <= 1:
+        d['name'] = 'q'          # (from_dict_unchecked stores the mapping verbatim: the caller supplies every init field)
+    if hx or which <= 1:
+        d['xs'] = xs
+    if hl:
+        d['log'] = ['l']
+    s0, sx = snapshot(d), snapshot(xs)
+    import copy as _copy
+    try:
+        if which == 0:
+            x = UC.from_dict_unchecked(d)
+        elif which == 1:
+            x = UC.from_dict_unchecked(d, set_fields=set(d.keys()))
+        else:
+            x = UC.make_unchecked(**{k: v for (k, v) in d.items() if k != 'log'})
+        _copy.copy(x)
+        _copy.deepcopy(x)
+        x.dict()
+        x.into_data()
+    except Exception as e:
+        if crosshair_exc(e):
+            raise
+        return 10
+    if not eqv(snapshot(d), s0) or not eqv(snapshot(xs), sx):
+        return 7
+    if not hl and not eqv(x.log, []):
+        return 10
+    return 0
+
+
+for _w in range(3):
+    try:
+        body_unchecked_construct(_w, True, False, False, 1)
+        body_unchecked_construct(_w, False, True, True, 1)
+    except Exception:
+        pass
